@@ -153,6 +153,36 @@ def run(ctx):
         )
     if nw < 2:
         raise AnalysisError("command builders: input-file writes not found", "redun/executors/command.py")
+    # ---- C29.6 an explicit local path is taken literally when a file is staged ----------------------
+    # script() self-stages every plain output File with value.stage(value.path) and relies on local.path == remote.path for "nothing to copy".
+    # File.stage may fill in a basename when no local path (or a directory) is given; any other rewriting of the given path (normalising slashes,
+    # splitting and re-joining) makes the pair unequal for some spellings and appends a `cp x x` that fails under `set -e`.
+    r6 = ctx.rule("C29.6", "File.stage rewrites its `local` argument only when it is empty or a directory", floor=1)
+    fm6 = repo.mod("redun/file.py")
+    n6 = 0
+    for q6 in ("File.stage", "Dir.stage"):
+        fn6 = fm6.funcs.get(q6)
+        if fn6 is None or len(fn6.args.args) < 2:
+            continue
+        lp = fn6.args.args[1].arg
+        cfg6 = CFG(fn6)
+        for nd in cfg6.nodes:
+            if nd.kind == "stmt" and isinstance(nd.ast, ast.Assign) and any(isinstance(t, ast.Name) and t.id == lp for t in nd.ast.targets):
+                n6 += 1
+                from ..cfg import facts_at as _fa6
+
+                facts = _fa6(cfg6, nd)
+                allowed = any((f == f"not {lp}" and t) or (f == lp and not t) or (f.startswith(f"{lp}.endswith(") and t) for f, t in facts)
+                r6.check(
+                    allowed,
+                    f"{fm6.rel}:{q6}:rewrites-local",
+                    f"`{src(nd.ast)}` in {q6} rewrites the caller's local path on a path where it is neither empty nor a directory: for spellings the rewrite changes (a doubled slash, say) "
+                    "`File(p).stage(p)` no longer has local == remote, so script() emits an unstage copy of the file onto itself and the task fails instead of returning its outputs",
+                    fm6.rel,
+                    nd.lineno,
+                )
+    if n6 == 0:
+        r6.good(f"{fm6.rel}:File.stage:no-rewrite", "the local path is never reassigned")
 
 
 def _collapsing_step(fn, e, spec, seen):
